@@ -162,6 +162,85 @@ def judge_sampler(flags, items, nframes):
     return None
 
 
+def judge_sampler_pair(flags1, items1, flags2, items2):
+    """two sampler windows one after the other on the same thread and parser: the second must be judged on ITS window only."""
+    def window(flags, items, base):
+        evs = [E.ev('PERF_Event', 1, (flags, 7, 0, 0))]
+        words = []
+        for i, it in enumerate(items):
+            if it == 'T':
+                evs.append(E.ev('PERF_THD_Data', 0, (55 + base, 1, 0x66, 1)))
+            elif it == 'H':
+                evs.append(E.ev('PERF_STK_UHdr', 0, (1, 3, 0, 0)))
+            elif it in ('D1', 'D2'):
+                w = tuple(base * 0x100000 + 0x1000 * (i + 1) + j for j in range(4))
+                words += list(w)
+                evs.append(E.ev('PERF_STK_UData', 0, w))
+            elif it == 'W':
+                evs.append(E.ev('MACH_WAIT', 0, (0x10, 0, 0, 0)))
+        evs.append(E.ev('PERF_Event', 2, (flags, 0, 0, 0)))
+        return evs, words
+    e1, w1 = window(flags1, items1, 1)
+    e2, w2 = window(flags2, items2, 2)
+    try:
+        out = run(e1 + e2)
+        pe = [t for t in out if type(t).__name__ == 'PerfEvent' and t.ktraces[0].func_qualifier == 1]
+        if len(pe) != 2:
+            return ('sampler-trace-count', {'n': len(pe)})
+        t = pe[1]
+        str(t)
+    except Exception as ex:
+        return ('sampler-raised:' + type(ex).__name__, {'error': repr(ex)[:200]})
+    want_info = bool(flags2 & 0x1) and 'T' in items2
+    if (t.th_info is not None) != want_info or (want_info and t.th_info.pid != 57):
+        return ('sampler-thread-info-from-another-window', {'second_window': list(items2), 'flags': hex(flags2), 'got': repr(t.th_info)[:120]})
+    want_stack = bool(flags2 & 0x8) and 'H' in items2
+    if (t.cs_frames is not None) != want_stack or (t.cs_flags is not None) != want_stack:
+        return ('sampler-user-stack-from-another-window', {'first_window': list(items1), 'second_window': list(items2), 'flags': hex(flags2),
+                                                           'frames': repr(t.cs_frames), 'cs_flags': repr(t.cs_flags)})
+    if want_stack and list(t.cs_frames) != w2[:3]:
+        return ('sampler-user-stack-frames', {'got': [hex(x) for x in t.cs_frames], 'exp': [hex(x) for x in w2[:3]]})
+    return None
+
+
+COMPOSITES = {
+    'vmfault': lambda inner: [E.ev('MACH_vmfault', 1, (0xaaaa, 0xbbbb, 1, 0))] + inner[0] + [nested_event('RealFaultAddressInternal', 0)] + inner[1] +
+                             [E.ev('MACH_vmfault', 2, (0, 0, 0, 2))] + inner[2],
+    'launch': lambda inner: [E.ev('DBG_DYLD_TIMING_LAUNCH_EXECUTABLE', 1, (0, 0x4000, 0, 0))] + inner[0] + [launch_event('a1', 0)] + inner[1] +
+                            [E.ev('DBG_DYLD_TIMING_LAUNCH_EXECUTABLE', 2, (0, 0, 0, 0))] + inner[2],
+    'sampler': lambda inner: [E.ev('PERF_Event', 1, (9, 7, 0, 0))] + inner[0] + [E.ev('PERF_THD_Data', 0, (55, 1, 0x66, 1)), E.ev('PERF_STK_UHdr', 0, (1, 2, 0, 0)),
+                             E.ev('PERF_STK_UData', 0, (0x10, 0x20, 0, 0))] + inner[1] + [E.ev('PERF_Event', 2, (9, 0, 0, 0))] + inner[2],
+}
+
+
+def judge_crossing(kind, shape):
+    """an unrelated call on the same thread overlaps the composite window: nested inside it, started inside and ended after it
+    (crossing), started before and ended inside. The composite must still be produced from its own window."""
+    S, En = E.ev('BSC_getuid', 1, (1, 2, 3, 4)), E.ev('BSC_getuid', 2, (0, 7, 0, 0))
+    if shape == 'started-before':
+        evs = [S] + COMPOSITES[kind](([], [En], []))
+    else:
+        inner = {'nested': ([S], [En], []), 'crossing': ([S], [], [En]), 'crossing-late-start': ([], [S], [En]), 'none': ([], [], [])}[shape]
+        evs = COMPOSITES[kind](inner)
+    try:
+        out = run(evs)
+        names = {'vmfault': 'MachVmfault', 'launch': 'DyldLaunchExecutable', 'sampler': 'PerfEvent'}
+        comp = [t for t in out if type(t).__name__ == names[kind] and t.ktraces[0].func_qualifier == 1]
+        if len(comp) != 1:
+            return ('composite-not-produced-with-overlapping-call', {'kind': kind, 'shape': shape, 'n': len(comp), 'traces': [type(t).__name__ for t in out]})
+        t = comp[0]
+        txt = str(t)
+        if kind == 'vmfault' and 'pid: 100' not in txt:
+            return ('composite-content-wrong-with-overlapping-call', {'text': txt})
+        if kind == 'launch' and [x.load_addr for x in t.uuid_map_a] != [0x1000]:
+            return ('composite-content-wrong-with-overlapping-call', {'text': txt, 'list': repr(t.uuid_map_a)[:200]})
+        if kind == 'sampler' and (t.th_info is None or list(t.cs_frames or []) != [0x10, 0x20]):
+            return ('composite-content-wrong-with-overlapping-call', {'text': txt})
+    except Exception as ex:
+        return ('composite-raised-with-overlapping-call:' + type(ex).__name__, {'error': repr(ex)[:200]})
+    return None
+
+
 class C20(Check):
     pid = 'C20'
     level = 'model_checking'
@@ -171,7 +250,9 @@ class C20(Check):
             'over {map_a@0x1000, map_a@0x2000 (two distinct), shared_cache_a@0x1800, shared_cache_a@0x2000, map_b, unrelated}; '
             'sampler windows: every subset of flags {TH_INFO, KSTACK, USTACK, other} x all sequences of <=4 (quick) / <=5 '
             '(thorough) over {THD_Data, UHdr, UData, UData, unrelated, other thread\'s UData} without repetition x header frame '
-            'count {0,3,4,5,9}. Oracle transcribed from the statement. states = distinct window shapes; transitions = feeds; '
+            'count {0,3,4,5,9}; PAIRS of sampler windows one after the other on the same thread and parser (3 x 7 x 4 x 7) - the second '
+            'judged on its own window only; each composite with an unrelated call of the same thread nested in it, crossing its end, '
+            'started inside, started before. Oracle transcribed from the statement. states = distinct window shapes; transitions = feeds; '
             'non-trivial = window with >=2 nested records.')
     assumptions = ('leniency: first nested real-fault record of the undecoded kind: only "does not raise and omits or uses a later '
                    'decoded record" is demanded; for a failed fault (result != 0) pid/protection may be omitted',
@@ -187,6 +268,8 @@ class C20(Check):
         L = 4 if self.tier == 'quick' else 5
         perms = [p for n in range(L + 1) for p in itertools.permutations(SAMPLE_ITEMS, n)]
         out += [('sampler', ch) for ch in chunked(perms, 16)]
+        out.append(('pairs',))
+        out.append(('crossing',))
         return out
 
     def run_shard(self, desc, acc):
@@ -216,6 +299,20 @@ class C20(Check):
                          outcome=h64(('la', sum(1 for k in nested if k[0] in 'as'))))
                 if bad:
                     acc.violation(bad[0], {'kind': 'launch', 'nested': list(nested)}, bad[1])
+        elif kind == 'pairs':
+            wins = [(), ('H',), ('T',), ('H', 'D1'), ('T', 'H', 'D1', 'D2'), ('D1',), ('W', 'D1')]
+            for f1, i1, f2, i2 in itertools.product((0x9, 0x1, 0x0), wins, (0x9, 0x8, 0x1, 0x0), wins):
+                bad = judge_sampler_pair(f1, i1, f2, i2)
+                acc.case(nontrivial=True, transitions=len(i1) + len(i2) + 4, state=h64(('pair', i1, i2)), outcome=h64(('pair', f1, i1, f2, i2)))
+                if bad:
+                    acc.violation(bad[0], {'kind': 'pair', 'f1': f1, 'i1': list(i1), 'f2': f2, 'i2': list(i2)}, bad[1])
+        elif kind == 'crossing':
+            for k in COMPOSITES:
+                for shape in ('none', 'nested', 'crossing', 'crossing-late-start', 'started-before'):
+                    bad = judge_crossing(k, shape)
+                    acc.case(nontrivial=shape != 'none', transitions=8, state=h64(('cross', k, shape)), outcome=h64(('cross', k, shape)))
+                    if bad:
+                        acc.violation(bad[0], {'kind': 'crossing', 'composite': k, 'shape': shape}, bad[1])
         else:
             for items in desc[1]:
                 for flags in (0x0, 0x1, 0x4, 0x8, 0x9, 0xc, 0xd, 0x5, 0x10, 0x19):
@@ -236,6 +333,10 @@ class C20(Check):
             bad = judge_vmfault(tuple(case['nested']), case['result'], case['ftype'], case['prot'])
         elif k == 'launch':
             bad = judge_launch(tuple(case['nested']))
+        elif k == 'pair':
+            bad = judge_sampler_pair(case['f1'], tuple(case['i1']), case['f2'], tuple(case['i2']))
+        elif k == 'crossing':
+            bad = judge_crossing(case['composite'], case['shape'])
         else:
             bad = judge_sampler(case['flags'], tuple(case['items']), case['nframes'])
         return [bad] if bad else []
